@@ -78,6 +78,7 @@ class Sim(object):
         self.target = cfg.get('target')
         self.escaped = []
         self.failed_cids = {}
+        self.zombies = set()
         self.heard = collections.defaultdict(dict)
         self.leader_now = {}
         self.notified = collections.defaultdict(set)
@@ -171,7 +172,7 @@ class Sim(object):
             for k, v in obj._methodToID.items():
                 if isinstance(k, str):
                     self.idname[v] = k.rsplit('_v', 1)[0]
-        self.prev_commit[name] = obj.raftCommitIndex
+        self.prev_commit[name] = 1          # (re)scan everything this incarnation reports committed
         self.prev_applied[name] = obj.raftLastApplied
         return obj
 
@@ -591,6 +592,30 @@ class Sim(object):
             self.model_keys[p] = self.model.key()
         return True
 
+    def scan_commit(self, name, obj, advanced):
+        """Record what `name` reports committed (G: first report per position)."""
+        c = obj.raftCommitIndex
+        prev = self.prev_commit[name]
+        if c < prev:
+            self.V('C04', 'commit-index-decreased', '%s commit index %d -> %d' % (name, prev, c))
+        for p in range(prev + 1, c + 1):
+            e = entry_at(obj, p)
+            if e is None:
+                continue
+            g = self.G.get(p)
+            if g is None:
+                self.G[p] = e
+                self.G_by[p] = (name, self.step_no)
+            elif g != e:
+                self.V('C04', 'committed-entry-differs',
+                       '%s reports position %d committed holding (term %d, %r) but %s reported (term %d, %r) at step %d' % (
+                           name, p, e[2], self.decode(e[0]), self.G_by[p][0], g[2], self.decode(g[0]), self.G_by[p][1]))
+            advanced.append((name, p))
+        if c > prev:
+            self.prev_commit[name] = c
+            if self.max_inflight_ae >= 2:
+                self.commit_after_pipelining = True
+
     def check(self, light=False):
         for (to, frm, t, mx) in self.pending_old_ae:
             obj = self.nodes.get(to)
@@ -626,28 +651,7 @@ class Sim(object):
                 self.V('C20', 'hasQuorum-wrong', '%s.hasQuorum is %r but it was told %d of the %d voters it knows are connected (self included)' % (name, obj.hasQuorum, conn, total))
         advanced = []
         for name in self.live():
-            obj = self.nodes[name]
-            c = obj.raftCommitIndex
-            prev = self.prev_commit[name]
-            if c < prev:
-                self.V('C04', 'commit-index-decreased', '%s commit index %d -> %d' % (name, prev, c))
-            for p in range(prev + 1, c + 1):
-                e = entry_at(obj, p)
-                if e is None:
-                    continue
-                g = self.G.get(p)
-                if g is None:
-                    self.G[p] = e
-                    self.G_by[p] = (name, self.step_no)
-                elif g != e:
-                    self.V('C04', 'committed-entry-differs',
-                           '%s reports position %d committed holding (term %d, %r) but %s reported (term %d, %r) at step %d' % (
-                               name, p, e[2], self.decode(e[0]), self.G_by[p][0], g[2], self.decode(g[0]), self.G_by[p][1]))
-                advanced.append((name, p))
-            if c > prev:
-                self.prev_commit[name] = c
-                if self.max_inflight_ae >= 2:
-                    self.commit_after_pipelining = True
+            self.scan_commit(name, self.nodes[name], advanced)
         # majority at the step of the advance
         for name, p in advanced:
             e = self.G.get(p)
@@ -757,8 +761,9 @@ class Sim(object):
                     self.V('C20', 'success-while-cut-off', 'cid %d was submitted on %s while it was cut off from a majority and got SUCCESS while still cut off' % (cid, sub['node']))
                 if err == 0:
                     obj = self.nodes.get(sub['node'])
-                    if obj is not None:
-                        self.extend_model(obj.raftLastApplied)
+                    if obj is not None and not self.extend_model(obj.raftLastApplied):
+                        self.counters['model_hole'] += 1
+                        continue        # a committed position was never observed with its entry: cannot decide
                     pos = sorted(self.cid_positions.get(cid, ()))
                     if len(pos) != 1:
                         self.V('C02', 'success-but-not-in-sequence', 'cid %d on %s reported SUCCESS, but it occupies positions %r of the common sequence' % (cid, sub['node'], pos))
